@@ -226,6 +226,13 @@ class ClassParser(BaseParser):
                 )
             field_map[name] = field
 
+        declared = {field.attname for field in fields}
+        for name, inherited in list(self.fields.items()):
+            if inherited.attname in declared and name not in field_map:
+                # re-declared by this class under another name (an alias was added, changed or dropped):
+                # the new declaration replaces the inherited one instead of standing beside it
+                self.fields.pop(name)
+
         self.fields.update(field_map)
 
     def generate_from_bases(self):
